@@ -86,7 +86,7 @@ def jobs(tier, seed, excluded=()):
     from ..trees import edges
 
     rng = random.Random(seed)
-    skip = {"E_set_val_int"}
+    skip = {"E_set_val_int", "E_multi_prompt"}  # (several prompts per definition are outside the executable specification)
     etrees = [e for e in edges.ids() if e not in skip]
     temps = ["T01", "T02", "T03", "T04", "T05", "T06", "T07", "T08", "T09", "T10", "T11", "T12", "T15"]
     if tier == "quick":
